@@ -38,11 +38,11 @@ class DPADistinguisherMixin(DistinguisherMixin):
 
         logger.info(f'Start updating accumulators for {self.__class__.__name__} with traces {traces.shape} and data {data.shape}.')
 
+        _traces = traces.astype(self.precision)
+        _data = data.astype(self.precision)
         self.processed_ones += _np.sum(data, axis=0)
-        traces = traces.astype(self.precision)
-        data = data.astype(self.precision)
-        self.accumulator_traces += _np.sum(traces, axis=0)
-        self.accumulator_ones += _np.dot(data.T, traces)
+        self.accumulator_traces += _np.sum(_traces, axis=0)
+        self.accumulator_ones += _np.dot(_data.T, _traces)
         logger.info(f'End updating accumulators for {self.__class__.__name__}.')
 
     def _compute(self):
